@@ -54,6 +54,33 @@ class PathDeps(Analysis):
                 res |= set(deps.get(node.id, frozenset()))
         return frozenset(res)
 
+    # -- components whose *sign* can reach the value of an expression: like
+    # _deps, except that a component which enters only through an even
+    # function (x*x, x**2, abs, hypot, cos) cannot be told from its negative
+    EVEN_CALLS = {'abs', 'math.fabs', 'math.hypot', 'math.cos', 'math.cosh', 'fabs', 'hypot', 'cos'}
+
+    def _sdeps(self, expr, deps, incoming):
+        def walk(node):
+            if isinstance(node, ast.BinOp) and isinstance(node.op, ast.Mult) \
+                    and norm(node.left) == norm(node.right):
+                return frozenset()
+            if isinstance(node, ast.BinOp) and isinstance(node.op, ast.Pow):
+                e = try_fold(node.right)
+                if isinstance(e, (int, float)) and float(e).is_integer() and int(e) % 2 == 0:
+                    return frozenset()
+            if isinstance(node, ast.Call) and call_name(node) in self.EVEN_CALLS:
+                return frozenset()
+            if isinstance(node, ast.Attribute) and isinstance(node.value, ast.Name) \
+                    and node.value.id == self.axis and node.attr in AXES and incoming:
+                return frozenset([node.attr])
+            if isinstance(node, ast.Name) and isinstance(node.ctx, ast.Load):
+                return frozenset(deps.get('~' + node.id, deps.get(node.id, frozenset())))
+            res = frozenset()
+            for child in ast.iter_child_nodes(node):
+                res |= walk(child)
+            return res
+        return walk(expr)
+
     def transfer(self, stmt, state):
         out = set()
         for conds, deps_t, pinned, signed, incoming, notes in state:
@@ -61,15 +88,21 @@ class PathDeps(Analysis):
             if isinstance(stmt, ast.Assign) and len(stmt.targets) == 1 \
                     and isinstance(stmt.targets[0], ast.Name):
                 name = stmt.targets[0].id
+                new_s = self._sdeps(stmt.value, deps, incoming)
                 deps[name] = self._deps(stmt.value, deps, incoming)
+                deps['~' + name] = new_s
                 if name == self.axis:
                     incoming = False
             elif isinstance(stmt, ast.AugAssign) and isinstance(stmt.target, ast.Name):
                 name = stmt.target.id
+                new_s = deps.get('~' + name, deps.get(name, frozenset())) | \
+                    self._sdeps(stmt.value, deps, incoming)
                 deps[name] = deps.get(name, frozenset()) | self._deps(stmt.value, deps, incoming)
+                deps['~' + name] = new_s
                 if name == self.axis:
                     incoming = False
             elif isinstance(stmt, ast.Return) and stmt.value is not None:
+                deps['~<return>'] = self._sdeps(stmt.value, deps, incoming)
                 deps['<return>'] = self._deps(stmt.value, deps, incoming)
             out.add((conds, tuple(sorted(deps.items())), pinned, signed, incoming, notes))
         return frozenset(out)
@@ -188,14 +221,18 @@ def run(ctx):
         n_feasible += 1
         deps = dict(deps_t)
         d_ret = set(deps.get('<return>', frozenset()))
+        s_ret = set(deps.get('~<return>', d_ret))
         free = set(AXES) - set(pinned)
         if len(free) >= 2:
-            missing = free - d_ret
+            missing = free - s_ret - set(signed)
             ok = not missing
             what = ('on this path the axis components %s are free; the result must depend '
-                    'on each of them (depends on %s)' % (sorted(free), sorted(d_ret)))
+                    'on each of them, and not only through an even function such as x*x, '
+                    'abs or hypot - an axis and its mirror image in that component need '
+                    'different rotations (depends on %s, sign-sensitively on %s, sign tests %s)'
+                    % (sorted(free), sorted(d_ret), sorted(s_ret), sorted(signed)))
         elif len(free) == 1:
-            missing = free - d_ret - set(signed)
+            missing = free - s_ret - set(signed)
             ok = not missing
             what = ('on this path the axis is +-e_%s; its sign must reach the result or a '
                     'branch (data deps %s, sign tests %s): a rotation about -e differs from '
